@@ -35,5 +35,5 @@ for sid in seeds:
     finally:
         subprocess.run(["git", "-C", "/repo", "checkout", "--", "."])
     print(rows[-1], flush=True)
-    with open(os.path.join(ROOT, "out", "mutall_rows.json"), "w") as f:
+    with open(os.path.join(ROOT, "out", "mutall_rows.json" if sys.argv[1:] else "mutall_all.json"), "w") as f:
         json.dump(rows, f, indent=1)
